@@ -141,7 +141,7 @@ func (h Heap) loadStructAt(ref *Term, t types.Type) *Val {
 func (h Heap) loadField(ref *Term, structT types.Type, idx int) *Val {
 	st := structT.Underlying().(*types.Struct)
 	f := st.Field(idx)
-	if _, ok := f.Type().Underlying().(*types.Struct); ok {
+	if _, ok := f.Type().Underlying().(*types.Struct); ok && !isOpaque(f.Type()) {
 		return h.loadStructAt(SubRef(ref, idx), f.Type())
 	}
 	key := structKey(structT)
@@ -158,7 +158,7 @@ func (h Heap) loadField(ref *Term, structT types.Type, idx int) *Val {
 func (h Heap) storeField(ref *Term, structT types.Type, idx int, v *Val) {
 	st := structT.Underlying().(*types.Struct)
 	f := st.Field(idx)
-	if _, ok := f.Type().Underlying().(*types.Struct); ok {
+	if _, ok := f.Type().Underlying().(*types.Struct); ok && !isOpaque(f.Type()) {
 		h.storeStructAt(SubRef(ref, idx), f.Type(), v)
 		return
 	}
@@ -190,7 +190,7 @@ func derefMapName(t types.Type, suffix string) string { return "d:" + shortTypeK
 func arrMapName(t types.Type, suffix string) string   { return "a:" + shortTypeKey(t) + suffix }
 
 func (h Heap) loadDeref(ref *Term, t types.Type) *Val {
-	if _, ok := t.Underlying().(*types.Struct); ok {
+	if _, ok := t.Underlying().(*types.Struct); ok && !isOpaque(t) {
 		return h.loadStructAt(ref, t)
 	}
 	cs := comps(t)
@@ -203,7 +203,7 @@ func (h Heap) loadDeref(ref *Term, t types.Type) *Val {
 }
 
 func (h Heap) storeDeref(ref *Term, t types.Type, v *Val) {
-	if _, ok := t.Underlying().(*types.Struct); ok {
+	if _, ok := t.Underlying().(*types.Struct); ok && !isOpaque(t) {
 		h.storeStructAt(ref, t, v)
 		return
 	}
@@ -217,7 +217,7 @@ func (h Heap) storeDeref(ref *Term, t types.Type, v *Val) {
 }
 
 func (h Heap) loadElem(ref, idx *Term, et types.Type) *Val {
-	if _, ok := et.Underlying().(*types.Struct); ok {
+	if _, ok := et.Underlying().(*types.Struct); ok && !isOpaque(et) {
 		return h.loadStructAt(ElemRef(ref, idx), et)
 	}
 	cs := comps(et)
@@ -231,7 +231,7 @@ func (h Heap) loadElem(ref, idx *Term, et types.Type) *Val {
 }
 
 func (h Heap) storeElem(ref, idx *Term, et types.Type, v *Val) {
-	if _, ok := et.Underlying().(*types.Struct); ok {
+	if _, ok := et.Underlying().(*types.Struct); ok && !isOpaque(et) {
 		h.storeStructAt(ElemRef(ref, idx), et, v)
 		return
 	}
